@@ -125,6 +125,7 @@ fn gen(seed: u64) -> GatherPlan {
         }
         p.custom = fams;
         p.custom_type_unset = r.chance(30);
+        p.custom_extra_values = r.chance(30);
     }
     // every f64 class in float-valued scalars: zero, negative zero, NaN, infinities, subnormal
     for m in p.metrics.iter_mut() {
